@@ -196,6 +196,20 @@ def job_corr(j):
     res = {'range': rng_of(obj), 'vals': eval_props(obj, j['evalTs'], j.get('props', ('cp', 'h', 's', 'g')))}
     if j.get('oracle'):
         res['oracle'] = spline_oracle(obj, j)
+    # the same temperatures handed over as arrays (float dtype; integer dtype for the integral ones)
+    inside = list(j['evalTs'][:j.get('n_inside', 0)])
+    arrs = {}
+    for kind, arr in (('float', np.array(inside, dtype=float)),
+                      ('int', np.array([int(T) for T in inside if float(T).is_integer()], dtype=int))):
+        if len(arr):
+            try:
+                with warnings.catch_warnings(record=True):
+                    warnings.simplefilter('always')
+                    out = np.asarray(obj.get_CpoR(arr))
+                arrs[kind] = {'T': [float(t) for t in arr], 'v': [float(x) for x in out.ravel()]}
+            except Exception as e:
+                arrs[kind] = {'exc': exc_name(e), 'msg': str(e)[:100]}
+    res['cp_arrays'] = arrs
     if j.get('pairs'):
         from scipy.integrate import quad
         raw = obj if j['cls'] == 'raw' else getattr(obj, '_correlation', None)
